@@ -5,8 +5,9 @@ use crate::util::*;
 use feos_core::{Contributions, PhaseEquilibrium, ReferenceSystem, SolverOptions, State};
 use feos_dft::adsorption::{ExternalPotential, Pore1D, PoreSpecification};
 use feos_dft::interface::PlanarInterface;
+use feos_dft::solvation::{PairCorrelation, SolvationProfile};
 use feos_dft::{DFTProfile, DFTSolver, DFTSpecifications, Geometry};
-use ndarray::Ix1;
+use ndarray::{Ix1, Ix3};
 use quantity::*;
 use serde_json::{json, Value};
 use std::sync::Arc;
@@ -25,7 +26,9 @@ pub fn solver_of(chain: &Value) -> DFTSolver {
     s
 }
 
-fn observe(profile: &DFTProfile<Ix1, F>, bulk_before: &State<F>) -> Value {
+macro_rules! def_observe {
+    ($name:ident, $dim:ty) => {
+        fn $name(profile: &DFTProfile<$dim, F>, bulk_before: &State<F>) -> Value {
     let rho = profile.density.to_reduced();
     let (mn, mx) = rho.iter().fold((f64::INFINITY, f64::NEG_INFINITY), |(a, b), &x| (a.min(x), b.max(x)));
     let finite = rho.iter().all(|x| x.is_finite());
@@ -46,6 +49,10 @@ fn observe(profile: &DFTProfile<Ix1, F>, bulk_before: &State<F>) -> Value {
         "moles": fv(profile.moles().to_reduced().iter()), "omega": fs(profile.grand_potential().map(|o| o.to_reduced()).unwrap_or(f64::NAN)),
         "bulk_rho_before": fv(bulk_before.partial_density.to_reduced().iter()), "bulk_rho_after": fv(profile.bulk.partial_density.to_reduced().iter())})
 }
+    };
+}
+def_observe!(observe, Ix1);
+def_observe!(observe3, Ix3);
 
 pub fn run(args: &Args) {
     let mut tr = Tr::create(&args.out);
@@ -181,6 +188,73 @@ pub fn run(args: &Args) {
                     }
                 }
             }
+        }
+    }
+    // ---- solvation: a Lennard-Jones solute in the saturated liquid on a 3-D Cartesian grid, and the test-particle route to the pair correlation
+    // function on a spherical grid; solved through SolvationProfile / PairCorrelation with the default solver and TLC-generated chains
+    for fu in functionals(false) {
+        if !["PcSaft/propane", "Pets"].contains(&fu.name.as_str()) { continue; }
+        if !args.thorough && fu.name != "Pets" { continue; }
+        let t = Temperature::from_reduced(fu.t);
+        let Ok(vle) = PhaseEquilibrium::pure(&fu.f, t, None, SolverOptions::default()) else { continue };
+        let Ok(bulk) = State::new_pure(&fu.f, t, vle.liquid().density) else { continue };
+        let (sig, eps) = if fu.name == "Pets" { (1.0, 1.0) } else { (3.5, 150.0) };
+        let len = if fu.name == "Pets" { 8.0 } else { 24.0 };
+        let ng = if args.thorough { 32 } else { 24 };
+        let solutes: Vec<(&str, Vec<[f64; 3]>)> = vec![("1 site", vec![[0.0, 0.0, 0.0]]), ("2 sites", vec![[-0.3 * sig, 0.0, 0.0], [0.3 * sig, 0.1 * sig, 0.0]])];
+        let mut idx: Vec<usize> = (0..plan.len()).collect();
+        rng.shuffle(&mut idx);
+        let mut chains: Vec<Value> = vec![json!("default")];
+        chains.extend(idx.iter().take(if args.thorough { 8 } else { 3 }).map(|&i| plan[i]["chain"].clone()));
+        for (solname, sites) in solutes.iter().take(if args.thorough { 2 } else { 1 }) {
+            let sname = format!("solvation 3D ({})", solname);
+            for chain in &chains {
+                let coords = ndarray::Array2::from_shape_fn((3, sites.len()), |(i, j)| sites[j][i]) * ANGSTROM;
+                let n_sites = sites.len();
+                let sp = SolvationProfile::new(&bulk, [ng, ng, ng], coords, ndarray::Array1::from_elem(n_sites, sig), ndarray::Array1::from_elem(n_sites, eps),
+                    Some([Length::from_reduced(len); 3]), None, None);
+                let Ok(mut sp) = sp else { tr.ev(json!({"ev":"Skip","functional":fu.name,"system":sname,"why":"initialisation failed"})); continue };
+                let bulk_before = sp.profile.bulk.clone();
+                let solver = if chain.is_string() { None } else { Some(solver_of(chain)) };
+                let r = guarded(std::panic::AssertUnwindSafe(|| sp.solve_inplace(solver.as_ref(), false)));
+                let (ok, err) = match &r { Ok(Ok(())) => (true, String::new()), Ok(Err(e)) => (false, e.to_string()), Err(m) => (false, format!("Panic:{}", m)) };
+                let obs = observe3(&sp.profile, &bulk_before);
+                let mut ev = json!({"ev":"Solve","functional":fu.name,"system":sname,"init":"bulk density","chain":if chain.is_string() { json!([]) } else { chain.clone() },"default_solver":chain.is_string(),
+                    "spec":"ChemicalPotential","spec_total_moles":fs(0.0),"ok":ok,"err":err,"obs":obs.clone()});
+                if ok {
+                    let pv = (sp.profile.bulk.pressure(Contributions::Total) * sp.profile.volume()).to_reduced();
+                    let om: f64 = obs["omega"].as_str().unwrap().parse().unwrap();
+                    ev["stored"] = json!([["grand potential", fs(sp.grand_potential.map(|o| o.to_reduced()).unwrap_or(f64::NAN)), obs["omega"]],
+                        ["solvation free energy", fs(sp.solvation_free_energy.map(|o| o.to_reduced()).unwrap_or(f64::NAN)), fs(om + pv)]]);
+                    ev["observables"] = json!([["solvation free energy", fs(om + pv), fs(om.abs())]]);
+                }
+                tr.ev(ev);
+            }
+        }
+        // pair correlation function (test particle = component 0)
+        let sname = "pair correlation (spherical)".to_string();
+        for chain in &chains {
+            let mut pc = PairCorrelation::new(&bulk, 0, 256, Length::from_reduced(if fu.name == "Pets" { 8.0 } else { 25.0 }));
+            let bulk_before = pc.profile.bulk.clone();
+            let solver = if chain.is_string() { None } else { Some(solver_of(chain)) };
+            let r = guarded(std::panic::AssertUnwindSafe(|| pc.solve_inplace(solver.as_ref(), false)));
+            let (ok, err) = match &r { Ok(Ok(())) => (true, String::new()), Ok(Err(e)) => (false, e.to_string()), Err(m) => (false, format!("Panic:{}", m)) };
+            let obs = observe(&pc.profile, &bulk_before);
+            let mut ev = json!({"ev":"Solve","functional":fu.name,"system":sname,"init":"bulk density","chain":if chain.is_string() { json!([]) } else { chain.clone() },"default_solver":chain.is_string(),
+                "spec":"ChemicalPotential","spec_total_moles":fs(0.0),"ok":ok,"err":err,"obs":obs.clone()});
+            if ok {
+                let om: f64 = obs["omega"].as_str().unwrap().parse().unwrap();
+                let pv = (pc.profile.bulk.pressure(Contributions::Total) * pc.profile.volume()).to_reduced();
+                let excess = (pc.profile.total_moles() - pc.profile.bulk.density * pc.profile.volume()).to_reduced() + 1.0;
+                let g = pc.pair_correlation_function.as_ref().unwrap();
+                let rho = pc.profile.density.to_reduced();
+                let rb = pc.profile.bulk.partial_density.to_reduced();
+                let gdev = g.iter().zip(rho.iter()).map(|(a, b)| (a - b / rb[0]).abs()).fold(0.0, f64::max);
+                ev["stored"] = json!([["self solvation free energy", fs(pc.self_solvation_free_energy.map(|o| o.to_reduced()).unwrap_or(f64::NAN)), fs(om + pv)],
+                    ["structure factor", fs(pc.structure_factor.unwrap_or(f64::NAN)), fs(excess)], ["g(r) - rho(r)/rho_bulk (max)", fs(gdev + 1.0), fs(1.0)]]);
+                ev["observables"] = json!([["self solvation free energy", fs(om + pv), fs(om.abs())], ["structure factor", fs(excess), fs(obs["moles"][0].as_str().unwrap().parse::<f64>().unwrap())]]);
+            }
+            tr.ev(ev);
         }
     }
     // ---- PoreProfile / PlanarInterface wrappers: what they store after solving belongs to the profile they hold, whatever was solved before
